@@ -854,3 +854,6 @@ LEVEL_NOTE = LEVEL_NOTE + (" Compiled parser = model (date conversions): coq/Gen
                            "it equal to Model/IsoParse.rs_ordinal_to_ymd / rs_iso_to_ymd, so an edit of these functions (the `<=` of the month search, the week 00 / weekday 0 checks, the year "
                            "spills) breaks a proof or fails closed (self-tested by mutation, including the seeded change C07-4). Still hand + pinned on the compiled side: parse_integer, the "
                            "timezone-offset arithmetic of parse_time (rs_offset), the character-level scanning.")
+
+LEVEL_NOTE = LEVEL_NOTE + (" Update: Parser::parse_integer is translated as well (the parser state read as the remaining input; model_is_code_rs_parse_integer, lengths up to 9); still hand + pinned on the "
+                           "compiled side: the timezone-offset block of parse_time (rs_offset) and the rest of the character-level control flow of parse_datetime / parse_time.")
